@@ -2,6 +2,10 @@
 # Regenerates MANIFEST.json from the table below (kept in one place so the manifest stays valid).
 import json, subprocess
 CLAIMED = {
+ "C12": dict(
+   text="Contracts on the real NALUHeader/NALU/AVCDecoderConfigurationRecord/AVCSample methods from ISO 14496-10 7.3.1 and ISO 14496-15 5.2.4.1.1: all 256 NAL header bytes, NAL unit round trips for any payload size (lemmas), the six fixed record bytes including reserved bits, SPS count = appended list length, loop invariants and termination measures, frame conditions, panic-freedom of all decoders - all unbounded. List-level round trips (2 SPS + 1 PPS; 2-NALU samples for each length size, children of any size) are bounded stand-ins run in the thorough tier.",
+   note="Trusted: govc, go/ssa, solvers; bytes.Buffer as a byte sequence; append in place exempt from frame checks. Not decided: position-dependent facts that need a recursive sequence spec (e.g. the PPS count byte of a record with >= 32 PPS) - only covered by the bounded lemmas.",
+   design="7/C12"),
  "C10": dict(
    text="Layout contracts (FLV v10 E.4.2.1 / E.4.3.1 plus the documented Opus extension) on the real audio/video packagers, both directions, over the full field ranges; four round-trip lemmas (frame->bytes->frame and bytes->frame->bytes, audio and video) proved from the contracts for all payload lengths; rate-code tables.",
    note="Trusted: govc translation, go/ssa, SMT solvers; bytes.Buffer modelled as a byte sequence; canonical bodies = what the encoder emits (Opus: defined rate code, zero first-byte rate bits).",
